@@ -1032,11 +1032,13 @@ impl<'a> ProgGen<'a> {
         let two_vars = style != 0 && self.r.chance(1, 2);
         let op = if style == 2 { [Op::Lt, Op::Le, Op::Eq, Op::Gt, Op::Ge][self.r.usize(5)] } else { [Op::Add, Op::Sub, Op::Mul, Op::Div][self.r.usize(4)] };
         let left = self.r.chance(1, 2);
+        // with two variables the literal variation sits in a `+ (k - k')` context, on both sides
+        // or on neither (`m + 0` and `m` are not convertible: no algebra in conversion)
+        let padded = two_vars && self.r.chance(2, 3);
         let mk = |r: &mut Rng| -> H {
             let nv = H::Var(n.clone());
             let other = if two_vars { H::Var(m.clone()) } else { lit_variants(r, k) };
-            // with two variables the literal variation moves into a harmless `+ 0`-like context
-            let other = if two_vars && r.chance(1, 2) { H::Bin(Op::Add, hb(other), hb(H::Bin(Op::Sub, hb(H::lit(k)), hb(lit_variants(r, k))))) } else { other };
+            let other = if padded { H::Bin(Op::Add, hb(other), hb(H::Bin(Op::Sub, hb(H::lit(k)), hb(lit_variants(r, k))))) } else { other };
             if left { H::Bin(op, hb(nv), hb(other)) } else { H::Bin(op, hb(other), hb(nv)) }
         };
         let (e1, e2) = (mk(self.r), mk(self.r));
